@@ -180,3 +180,27 @@ Proof.
   - split; [reflexivity|]. apply gval_set_other. exact Hne.
 Qed.
 Print Assumptions C12_increment_via_temp.
+
+(* ---- inside function bodies ---- *)
+Require Calc.LExprCorrect.
+Require Import Calc.LExprSem.
+(* an expression over the function's variables and the globals means the same — lden — under every
+   selector and every flag combination, the flags a function body is compiled with (Returning, InFunc)
+   included: the last expression of a function or not *)
+Theorem C12_body_expression_any_context : forall L e, lpure L e = true ->
+  forall sel fl s w s', 0 <= sel <= 2 -> wfcs s -> Compile.comp e sel fl s = COk (w, s') ->
+  LExprCorrect.SpecD L (fun G => lden L G e) sel fl s s' w.
+Proof. intros L e Hp. exact (LExprCorrect.comp_lpure_spec L e Hp). Qed.
+Print Assumptions C12_body_expression_any_context.
+
+(* the argument of a call is compiled as the same expression anywhere else, and the call's value does not
+   depend on whether it is used or discarded (d) *)
+Theorem C12_call_used_or_discarded : forall Bf nm e d s s' w,
+  pure e = true -> wfcs s ->
+  Compile.comp (NCall (NName nm) [e]) 0 (tfl d) s = COk (w, s') ->
+  SpecS Bf (NCall (NName nm) [e]) d 0 s s' w.
+Proof.
+  intros Bf nm e d s s' w Hp Hwf H.
+  apply (comp_stmt Bf (NCall (NName nm) [e])); [cbn [wstmt is_bcall]; exact Hp|reflexivity|exact Hwf|exact H].
+Qed.
+Print Assumptions C12_call_used_or_discarded.
